@@ -100,12 +100,16 @@ inline Outcome walk(const Config &cfg, const Bytes &stream) {
         if (alloc_failed) {
             if (frame) return fail("alloc-failed-but-frame", "allocation failed but a frame was returned");
             if (calls) return fail("alloc-failed:memory-access", "memory accessed although no block could be allocated");
+            // a header fault is still a header fault when the frame could not be stored: nothing of a damaged header may be mirrored in a response
+            if (v == rp::V_BAD_HDCRC && !(replies.size() == 1 && replies[0].type == rp::META && replies[0].meta == 2)) return fail("alloc-failed:bad-header-checksum-not-reported", vp::fmt("allocation failure and a header whose checksum does not match: %zu reply frames%s", replies.size(), replies.empty() ? "" : (", first: " + rp::show(replies[0])).c_str()));
+            if (v == rp::V_BAD_HEADER && raw.size() >= 12 && !(replies.size() == 1 && replies[0].type == rp::META && replies[0].meta == 1)) return fail("alloc-failed:bad-header-encoding-not-reported", vp::fmt("allocation failure and a header that does not parse: %zu reply frames", replies.size()));
             if (v == rp::V_OK && ref.is_request() && !is_resp(rp::C_EBUSY)) return fail("alloc-failed:no-ebusy-reply", vp::fmt("well-formed request, allocation failure: %zu reply frames%s", replies.size(), replies.empty() ? "" : (", first: " + rp::show(replies[0])).c_str()));
             o.resource_replies++; continue;
         }
         if (raw.size() > capacity) {
             if (calls) return fail("overflow:memory-access", "a frame too large for the receive block reached the back-end");
             if (eid == 0) return fail("overflow-not-detected", vp::fmt("frame of %zu octets, capacity %zu, error.id=0", raw.size(), capacity));
+            if (capacity >= 16 && v == rp::V_BAD_HDCRC && !(replies.size() == 1 && replies[0].type == rp::META && replies[0].meta == 2)) return fail("overflow:bad-header-checksum-not-reported", vp::fmt("over-long frame whose header checksum does not match: %zu reply frames%s", replies.size(), replies.empty() ? "" : (", first: " + rp::show(replies[0])).c_str()));
             if (capacity >= 16 && header_ok && ref.is_request() && !is_resp(rp::C_ERXOVERFLOW)) return fail("overflow:no-erxoverflow-reply", vp::fmt("over-long request: %zu reply frames%s", replies.size(), replies.empty() ? "" : (", first: " + rp::show(replies[0])).c_str()));
             o.resource_replies++; continue;
         }
